@@ -11,7 +11,7 @@
    Variants: [Repaired] = /repo HEAD (both C20 fixes are committed); [Defective] = the code before them; [LoadAndDel] =
    seeded change C20_n2.  Theorems are proved for Repaired; the `_refuted` theorems show the same statements false for
    the other two. *)
-From OV Require Import Common.Base C20.Model C20.Proofs C20.Proofs2 C20.Proofs3 C20.Proofs4.
+From OV Require Import Common.Base C20.Model C20.Proofs C20.Proofs2 C20.Proofs3 C20.Proofs4 C20.Proofs5.
 Open Scope Z_scope.
 
 (* ---------------------------------------------------------------- label tuples and the hash *)
@@ -661,3 +661,47 @@ Example C20_default_buffer_free :
   (let b := sub_publish_n 300 (sub_new 1024 0) in (sb_len b, sb_dropped b) = (300%nat, 0)).
 Proof. split; [intros dflt; split; reflexivity|]. vm_compute. split; reflexivity. Qed.
 Print Assumptions C20_default_buffer_free.
+
+(* ---------------------------------------------------------------- histograms: buckets and sum *)
+(* every schedule, either variant: every histogram entry a snapshot returns has one counter per bucket boundary plus +Inf, and
+   the bucket counters add up to its count (mod 2^64, they are uint64) *)
+Theorem C20_hist_buckets_sum_to_count : forall c progs sched t v,
+  c_kind c = KHist ->
+  In (t, v) (snapshot (sh (run_sched c (sys0 progs) sched))) ->
+  length (v_bk v) = S (length (c_buckets c)) /\ zsum (v_bk v) mod M64 = v_cnt v mod M64.
+Proof. exact hist_buckets. Qed.
+Print Assumptions C20_hist_buckets_sum_to_count.
+
+(* the SUM field per tuple, exact in Z: [shown KGauge s t] / [retired_of KGauge s t] read the v_main field of the series of t,
+   i.e. the histogram sum; [vemitted_to] = sum of the values the programs observe for t; [vattributed] = sum of the observed
+   values directed at t that did not land (tally); their number is what the three drop metrics count *)
+Theorem C20_hist_sum_per_tuple_conservation : forall c progs sched,
+  c_kind c = KHist -> c_variant c = Repaired -> wf_progs c progs = true ->
+  let x := run_sched c (sys0 progs) sched in
+  quiescent x = true ->
+  (forall t, shown KGauge (sh x) t + retired_of KGauge (sh x) t + vattributed x t = vemitted_to c progs t) /\
+  (drops (sh x) + unknown (sh x) + stales (sh x)) mod M64 = nonlanded x mod M64 /\
+  noop (sh x) = 0.
+Proof. exact hist_sum_per_tuple. Qed.
+Print Assumptions C20_hist_sum_per_tuple_conservation.
+
+Definition hcfg (v : variant) (cap : Z) : cfg := {| c_kind := KHist; c_cap := cap; c_nlabels := 1; c_buckets := [1; 5]; c_variant := v |}.
+Example C20_hist_nonvacuous :
+  let c := hcfg Repaired 1 in
+  let progs := [[OResolve tA; OEmitH 0 EAdd 0; OEmitH 0 EAdd 3; OEmitH 0 EAdd 7; OResolve tB; OEmitH 1 EAdd 4; OEmitT tA EAdd 5; OEmitT tC EAdd 9]] in
+  let x := run_sched c (sys0 progs) (repeat 0%nat 60) in
+  wf_progs c progs = true /\ quiescent x = true /\
+  snapshot (sh x) = [(tA, {| v_main := 15; v_cnt := 4; v_bk := [1; 2; 1] |})] /\
+  (shown KGauge (sh x) tA, vattributed x tA, vemitted_to c progs tA) = (15, 0, 15) /\
+  (vattributed x tB, vemitted_to c progs tB, vattributed x tC, nonlanded x) = (4, 4, 9, 2) /\
+  (drops (sh x), unknown (sh x)) = (1, 1).
+Proof. vm_compute. repeat split; reflexivity. Qed.
+Print Assumptions C20_hist_nonvacuous.
+
+(* the pre-36aca6a machine loses an observed value: w1 on a histogram — Observe(5) through the orphaned handle *)
+Theorem C20_hist_sum_refuted :
+  let c := hcfg Defective 1 in let x := run_sched c (sys0 w1_progs) w1_sched in
+  wf_progs c w1_progs = true /\ quiescent x = true /\ nonlanded x = 0 /\
+  shown KGauge (sh x) tA + retired_of KGauge (sh x) tA + vattributed x tA = 0 /\ vemitted_to c w1_progs tA = 5.
+Proof. vm_compute. repeat split; reflexivity. Qed.
+Print Assumptions C20_hist_sum_refuted.
